@@ -32,8 +32,8 @@ variable {K : Type} [Field K] [LinearOrder K] [IsStrictOrderedRing K]
 
 /-! ## helper lemmas -/
 
-/-- the constants of the code as exact decimals (`fmin` any very negative number) -/
-def cQ : Consts ℚ := ⟨1/100000000, 1/100000000, 10, -1000000⟩
+/-- the constants of the code as exact decimals -/
+def cQ : Consts ℚ := ⟨1/100000000, 1/100000000, 10⟩
 
 
 theorem isZero_iff (x : K) : isZero x = true ↔ x = 0 := by
@@ -327,7 +327,7 @@ theorem orientation (c : Consts K) (sqrt : K → K) (feats : Mat K) (decoy : Lis
 
 /-- non-vacuity of `orientation`: a 4-row, 1-feature problem over ℚ on which `train` succeeds with the
 identity as `sqrt` stand-in (targets 3, 5; decoys 1, 2). -/
-example : (train (α := ℚ) ⟨1/100000000, 1/100000000, 10, -1000000⟩ id [[3], [1], [5], [2]]
+example : (train (α := ℚ) ⟨1/100000000, 1/100000000, 10⟩ id [[3], [1], [5], [2]]
     [false, true, false, true] 1).isSome = true := by
   decide +kernel
 
@@ -546,7 +546,7 @@ example : poissonFeatureXQ (fun x => x) (some (-2)) = some 2 := by decide +kerne
 
 `Sat X m (left, right)` says that `X` solves every row. `reduce`, `backfill` and row swaps keep every
 solution unconditionally; one elimination step of `echelon` does so when the pivot row is zero to the
-left of the pivot column. `echelon` as a whole does NOT in general (`echelon_unsound_witness`). -/
+left of the pivot column. with pivoting by magnitude every run qualifies (`goodRun_always`). -/
 
 /-- row `(l, r)` of a system holds for the candidate solution `X` (row `j` of `X` = unknown `j`;
 `m` right-hand columns): `Σ_j l_j X_{j,c} = r_c` -/
@@ -815,44 +815,29 @@ theorem swapRows_sound {X : Mat K} {m : Nat} (i j : Nat) {st : Mat K × Mat K}
     · exact hs j hj
     · exact hs k hk
 
-/-- **C15.echelon_unsound_witness** — …but `echelon` as a whole does NOT keep every solution: the pivot search takes the largest
-*signed* value and skips the column when that maximum is `0.0`, although a negative entry may sit
-below; later eliminations then ignore that column. Witness: `y = 2, −x + y = 1` (solved by
-`x = 1, y = 2`) is turned into a system whose second row reads `0 = 1`. Unreachable for the SPD
-systems LDA produces in exact arithmetic (all pivots positive). -/
-theorem echelon_unsound_witness :
-    Sat (K := ℚ) [[1], [2]] 1 ([[0, 1], [-1, 1]], [[2], [1]]) ∧
-    echelon (-1000000 : ℚ) 2 ([[0, 1], [-1, 1]], [[2], [1]]) = ([[-1, 1], [0, 0]], [[1], [1]]) ∧
-    ¬ Sat (K := ℚ) [[1], [2]] 1 ([[-1, 1], [0, 0]], [[1], [1]]) := by
-  refine ⟨?_, by decide +kernel, ?_⟩
-  · intro i hi c hc
-    have hc0 : c = 0 := by omega
-    subst hc0
-    simp only [List.length_cons, List.length_nil] at hi
-    have : i = 0 ∨ i = 1 := by omega
-    rcases this with rfl | rfl <;> norm_num [dotl, col]
-  · intro h
-    have := h 1 (by simp) 0 (by omega)
-    norm_num [dotl, col] at this
-
+/-! History: with the pivot rule sage had before the repair (largest SIGNED value, column skipped when
+that maximum was `0.0`) `echelon` could lose solutions (`y = 2, −x + y = 1` became a system containing
+`0 = 1`), fail on the SPD matrix `[[1,2,0],[2,5,0],[0,0,1]]`, and choose a regulariser-sized pivot
+(`-ε/2` over `-10⁶`: multiplier `2·10¹⁴`). With pivoting by magnitude every run is a `GoodRun`
+(`goodRun_always`) and every multiplier has magnitude `≤ 1` (`multiplier_le_one`). -/
 
 /-- rows `≥ h` are zero in the columns `< k` (the echelon invariant) -/
 def EchInv (h k : Nat) (L : Mat K) : Prop := ∀ i, h ≤ i → ∀ j, j < k → get L i j = 0
 
 /-- the run of the `echelon` loop from this state never skips a column that still has a non-zero
 entry in a row `≥ h`, and always finds its pivot among the rows `h..m` (mirrors `echelonLoop`) -/
-def GoodRun (fmin : K) (m n : Nat) : Nat → Nat → Nat → Mat K × Mat K → Prop
+def GoodRun (m n : Nat) : Nat → Nat → Nat → Mat K × Mat K → Prop
   | 0, _, _, _ => True
   | fuel + 1, h, k, (left, right) =>
     if h < m ∧ k < n then
-      if isZero (get left (findMax fmin left k h m).1 k) then
-        (∀ r, h ≤ r → r < m → get left r k = 0) ∧ GoodRun fmin m n fuel h (k + 1) (left, right)
+      if isZero (get left (findMax left k h m).1 k) then
+        (∀ r, h ≤ r → r < m → get left r k = 0) ∧ GoodRun m n fuel h (k + 1) (left, right)
       else
-        h ≤ (findMax fmin left k h m).1 ∧ (findMax fmin left k h m).1 < m ∧
-        GoodRun fmin m n fuel (h + 1) (k + 1)
+        h ≤ (findMax left k h m).1 ∧ (findMax left k h m).1 < m ∧
+        GoodRun m n fuel (h + 1) (k + 1)
           (clearBelow h k
-            (if h ≠ (findMax fmin left k h m).1 then (swapRows left h (findMax fmin left k h m).1, swapRows right h (findMax fmin left k h m).1) else (left, right)).1
-            (if h ≠ (findMax fmin left k h m).1 then (swapRows left h (findMax fmin left k h m).1, swapRows right h (findMax fmin left k h m).1) else (left, right)).2)
+            (if h ≠ (findMax left k h m).1 then (swapRows left h (findMax left k h m).1, swapRows right h (findMax left k h m).1) else (left, right)).1
+            (if h ≠ (findMax left k h m).1 then (swapRows left h (findMax left k h m).1, swapRows right h (findMax left k h m).1) else (left, right)).2)
     else True
 
 theorem get_of_length_le (L : Mat K) (i j : Nat) (h : L.length ≤ i) : get L i j = 0 := by
@@ -918,10 +903,10 @@ theorem echInv_clearBelow {h k : Nat} {L R : Mat K} (hinv : EchInv h k L) :
 /-- **C15.echelonLoop_sound** (partial: hypothesis `GoodRun`) — the `echelon` loop keeps every solution along a `GoodRun` (no
 column with a non-zero entry is skipped, pivots are found among the rows `h..m`) started from a state
 that satisfies the echelon invariant. -/
-theorem echelonLoop_sound {X : Mat K} (fmin : K) {nn mm : Nat} (m n : Nat) (fuel h k : Nat)
+theorem echelonLoop_sound {X : Mat K} {nn mm : Nat} (m n : Nat) (fuel h k : Nat)
     (st : Mat K × Mat K) (hr : Rect st nn mm) (hm : st.1.length = m) (hinv : EchInv h k st.1)
-    (hg : GoodRun fmin m n fuel h k st) (hs : Sat X mm st) :
-    Rect (echelonLoop fmin m n fuel h k st) nn mm ∧ Sat X mm (echelonLoop fmin m n fuel h k st) := by
+    (hg : GoodRun m n fuel h k st) (hs : Sat X mm st) :
+    Rect (echelonLoop m n fuel h k st) nn mm ∧ Sat X mm (echelonLoop m n fuel h k st) := by
   induction fuel generalizing h k st with
   | zero => exact ⟨hr, hs⟩
   | succ fuel ih =>
@@ -949,14 +934,14 @@ theorem echelonLoop_sound {X : Mat K} (fmin : K) {nn mm : Nat} (m n : Nat) (fuel
         rw [if_neg hz] at hg
         obtain ⟨hhi, him, hg'⟩ := hg
         have hhm : h < left.length := by omega
-        have hil : (findMax fmin left k h m).1 < left.length := by omega
+        have hil : (findMax left k h m).1 < left.length := by omega
         -- the state after the (optional) swap
-        have hsw : Rect (if h ≠ (findMax fmin left k h m).1 then (swapRows left h (findMax fmin left k h m).1, swapRows right h (findMax fmin left k h m).1) else (left, right)) nn mm
-            ∧ Sat X mm (if h ≠ (findMax fmin left k h m).1 then (swapRows left h (findMax fmin left k h m).1, swapRows right h (findMax fmin left k h m).1) else (left, right))
-            ∧ EchInv h k (if h ≠ (findMax fmin left k h m).1 then (swapRows left h (findMax fmin left k h m).1, swapRows right h (findMax fmin left k h m).1) else (left, right)).1
-            ∧ (if h ≠ (findMax fmin left k h m).1 then (swapRows left h (findMax fmin left k h m).1, swapRows right h (findMax fmin left k h m).1) else (left, right)).1.length = m
-            ∧ get (if h ≠ (findMax fmin left k h m).1 then (swapRows left h (findMax fmin left k h m).1, swapRows right h (findMax fmin left k h m).1) else (left, right)).1 h k
-                = get left (findMax fmin left k h m).1 k := by
+        have hsw : Rect (if h ≠ (findMax left k h m).1 then (swapRows left h (findMax left k h m).1, swapRows right h (findMax left k h m).1) else (left, right)) nn mm
+            ∧ Sat X mm (if h ≠ (findMax left k h m).1 then (swapRows left h (findMax left k h m).1, swapRows right h (findMax left k h m).1) else (left, right))
+            ∧ EchInv h k (if h ≠ (findMax left k h m).1 then (swapRows left h (findMax left k h m).1, swapRows right h (findMax left k h m).1) else (left, right)).1
+            ∧ (if h ≠ (findMax left k h m).1 then (swapRows left h (findMax left k h m).1, swapRows right h (findMax left k h m).1) else (left, right)).1.length = m
+            ∧ get (if h ≠ (findMax left k h m).1 then (swapRows left h (findMax left k h m).1, swapRows right h (findMax left k h m).1) else (left, right)).1 h k
+                = get left (findMax left k h m).1 k := by
           split
           · refine ⟨rect_swapRows (st := (left, right)) _ _ hr hhm hil,
               swapRows_sound (st := (left, right)) _ _ hr.1 hhm hil hs,
@@ -966,11 +951,11 @@ theorem echelonLoop_sound {X : Mat K} (fmin : K) {nn mm : Nat} (m n : Nat) (fuel
             rw [getD_swapRows _ _ _ _ hhm hil]
             simp [hne]
           · rename_i hne
-            have : h = (findMax fmin left k h m).1 := by
+            have : h = (findMax left k h m).1 := by
               by_contra hc; exact hne hc
             exact ⟨hr, hs, hinv, hm, by simp only; rw [← this]⟩
         obtain ⟨hr2, hs2, hinv2, hm2, hpiv⟩ := hsw
-        have hp : ((if h ≠ (findMax fmin left k h m).1 then (swapRows left h (findMax fmin left k h m).1, swapRows right h (findMax fmin left k h m).1) else (left, right)).1.getD h []).getD k 0 ≠ 0 := by
+        have hp : ((if h ≠ (findMax left k h m).1 then (swapRows left h (findMax left k h m).1, swapRows right h (findMax left k h m).1) else (left, right)).1.getD h []).getD k 0 ≠ 0 := by
           intro h0
           apply hz
           rw [isZero_iff, ← hpiv]
@@ -988,10 +973,10 @@ if `solve_inner` returns `X'` for the regulariser `eps`, and the elimination was
 EVERY exact solution `X` of the regularised system `(A + eps·I) X = B` also solves the final system
 `L X = X'`, where `L` is the final left side, which `left_solved` accepted (identity up to `tol`, or
 zero rows — `leftSolved_spec`). So the returned `X'` is `L X`: the solution up to the accepted
-residue of `L`. The `GoodRun` hypothesis cannot be dropped: `echelon_unsound_witness`. -/
+residue of `L`. Since the repair of the pivot rule the `GoodRun` hypothesis always holds (`goodRun_always`, `solve_sound`). -/
 theorem solve_sound_partial (c : Consts K) (n nn mm : Nat) (A B : Mat K) (eps : K) (X X' : Mat K)
     (hr : Rect (fillZero eps A, B) nn mm)
-    (hg : GoodRun c.fmin A.length n n 0 0 (fillZero eps A, B))
+    (hg : GoodRun A.length n n 0 0 (fillZero eps A, B))
     (hX : Sat X mm (fillZero eps A, B))
     (hsol : solveInner c n A B eps = some X') :
     ∃ L : Mat K, leftSolved c.tol n L = true ∧ Sat X mm (L, X') := by
@@ -1003,14 +988,14 @@ theorem solve_sound_partial (c : Consts K) (n nn mm : Nat) (A B : Mat K) (eps : 
     refine ⟨_, hls, ?_⟩
     rw [← hx]
     have hlen : (fillZero eps A).length = A.length := by simp [fillZero]
-    have he := echelonLoop_sound (X := X) c.fmin A.length n n 0 0 (fillZero eps A, B) hr hlen
+    have he := echelonLoop_sound (X := X) A.length n n 0 0 (fillZero eps A, B) hr hlen
       (fun i _ j hj => absurd hj (Nat.not_lt_zero j)) hg hX
-    have he' : Rect (echelon c.fmin n (fillZero eps A, B)) nn mm ∧ Sat X mm (echelon c.fmin n (fillZero eps A, B)) := by
+    have he' : Rect (echelon n (fillZero eps A, B)) nn mm ∧ Sat X mm (echelon n (fillZero eps A, B)) := by
       unfold echelon
       simp only [hlen]
       exact he
     have hred := reduce_sound he'.1.1 he'.2
-    have hrr : Rect (reduce (echelon c.fmin n (fillZero eps A, B))) nn mm := by
+    have hrr : Rect (reduce (echelon n (fillZero eps A, B))) nn mm := by
       obtain ⟨h0, h1, h2⟩ := he'.1
       refine ⟨by simp [reduce, h0], ?_, ?_⟩
       · intro r hmem
@@ -1033,11 +1018,11 @@ theorem solve_sound_partial (c : Consts K) (n nn mm : Nat) (A B : Mat K) (eps : 
   · exact absurd hsol (by simp)
 
 
-instance goodRunDec (fmin : K) (m n : Nat) : ∀ fuel h k st, Decidable (GoodRun fmin m n fuel h k st)
+instance goodRunDec (m n : Nat) : ∀ fuel h k (st : Mat K × Mat K), Decidable (GoodRun m n fuel h k st)
   | 0, _, _, _ => isTrue trivial
   | fuel + 1, h, k, (left, right) => by
     unfold GoodRun
-    haveI := goodRunDec fmin m n fuel
+    haveI := goodRunDec m n fuel
     infer_instance
 
 instance (X : Mat K) (m : Nat) (l r : List K) : Decidable (RowSat X m l r) := by
@@ -1050,7 +1035,7 @@ instance (st : Mat K × Mat K) (n m : Nat) : Decidable (Rect st n m) := by
 /-- non-vacuity of `solve_sound_partial`: `[[2,1],[1,2]] X = [[1],[0]]` with `eps = 0`: the hypotheses
 hold for the exact solution `X = (2/3, −1/3)`, and `solve_inner` succeeds -/
 example : Rect (fillZero (0 : ℚ) [[2, 1], [1, 2]], [[1], [0]]) 2 1
-    ∧ GoodRun cQ.fmin 2 2 2 0 0 (fillZero (0 : ℚ) [[2, 1], [1, 2]], [[1], [0]])
+    ∧ GoodRun 2 2 2 0 0 (fillZero (0 : ℚ) [[2, 1], [1, 2]], [[1], [0]])
     ∧ Sat [[2/3], [-1/3]] 1 (fillZero (0 : ℚ) [[2, 1], [1, 2]], [[1], [0]])
     ∧ solveInner cQ 2 [[2, 1], [1, 2]] [[1], [0]] 0 = some [[2/3], [-1/3]] := by
   decide +kernel
@@ -1145,16 +1130,15 @@ theorem start_orthogonal_not_fisher (sqrt : ℚ → ℚ) (h0 : sqrt 0 = 0) :
 example : Q.solveExact (stats (α := ℚ) [[3, 1], [5, 1], [1, 3], [1, 5]] [false, false, true, true] 2).sw
     [[3], [-3]] = some [[3], [-3]] := by decide +kernel
 
-/-- **C15.solve_fails_on_spd_witness** — `Gauss::solve` reports failure (for every regulariser of the
-ladder) on the symmetric positive definite, well-conditioned system `[[1,2,0],[2,5,0],[0,0,1]] X = (1,1,1)`,
-whose exact solution is `(3, −1, 1)`: the pivot search takes the largest *signed* value and skips a
-column whose maximum is `0`, here the exact zero of the uncoupled third row, although `−1/2` is a valid
-pivot. "Reports failure" is allowed by the property text, so this is not a violation of its letter, but
-the failure is spurious; reproduced on the real code (`corpus/C15/observation-spurious-failure-block-diagonal.req`). -/
-theorem solve_fails_on_spd_witness :
-    solve cQ 3 [[1, 2, 0], [2, 5, 0], [0, 0, 1]] [[1], [1], [1]] = none ∧
-    Sat (K := ℚ) [[3], [-1], [1]] 1 ([[1, 2, 0], [2, 5, 0], [0, 0, 1]], [[1], [1], [1]]) := by
-  constructor
+/-- **C15.former_spd_witness_solved** — the symmetric positive definite system
+`[[1,2,0],[2,5,0],[0,0,1]] X = (1,1,1)`, on which the solver with the former (signed-max) pivot rule reported
+failure for every regulariser, is solved at the first regulariser with pivoting by magnitude, and the result
+solves `(A + ε₀I) X = B` exactly (regression witness; the real code: `corpus/C15/observation-spurious-failure-block-diagonal.req`) -/
+theorem former_spd_witness_solved :
+    ∃ X, solve cQ 3 [[1, 2, 0], [2, 5, 0], [0, 0, 1]] [[1], [1], [1]] = some X ∧
+      Sat (K := ℚ) X 1 (fillZero cQ.eps0 [[1, 2, 0], [2, 5, 0], [0, 0, 1]], [[1], [1], [1]]) := by
+  refine ⟨[[30000000100000000 / 10000000600000001], [-9999999900000000 / 10000000600000001],
+    [100000000 / 100000001]], ?_, ?_⟩
   · decide +kernel
   · decide +kernel
 
@@ -1191,13 +1175,19 @@ theorem unfit_of_solve_none (c : Consts K) (sqrt : K → K) (isFinite : K → Bo
   rw [train_none_of_solve_none c sqrt feats decoy p h]
   rfl
 
-/-- non-vacuity: a 5-PSM, 3-feature data set (within-class scatter `[[1,2,0],[2,5,0],[0,0,1]]`, condition
-number ≈ 49) on which the solver fails for every regulariser (the spurious failure of
-`solve_fails_on_spd_witness`); the PSMs keep their initial `(0, 1)` -/
-example : scorePsmsOutcome cQ id (fun _ => true) id
+/-- non-vacuity. In exact arithmetic `S_w + εI` is positive definite and, with pivoting by magnitude, the
+solver cannot fail on it; `solve` returns `none` only when no regulariser of the ladder is tried or accepted —
+here a constants record whose first regulariser already exceeds 1 (empty ladder). The PSMs keep `(0, 1)`. -/
+example : scorePsmsOutcome (⟨1/100000000, 2, 10⟩ : Consts ℚ) id (fun _ => true) id
     [[6, 8, 6], [4, 4, 4], [1, 1, 1], [6, 6, 4], [4, 2, 6]] [false, false, true, false, false] 3
     [(0, 1), (0, 1), (0, 1), (0, 1), (0, 1)] = (none, [(0, 1), (0, 1), (0, 1), (0, 1), (0, 1)]) := by
   apply unfit_of_solve_none
+  decide +kernel
+
+/-- non-vacuity of `unfit_untouched` through the other exit: a non-finite eigenvector (guard) -/
+example : scorePsmsOutcome cQ id (fun _ => false) id
+    [[6, 8, 6], [4, 4, 4], [1, 1, 1], [6, 6, 4], [4, 2, 6]] [false, false, true, false, false] 3
+    [(0, 1), (0, 1), (0, 1), (0, 1), (0, 1)] = (none, [(0, 1), (0, 1), (0, 1), (0, 1), (0, 1)]) := by
   decide +kernel
 
 /-! ### the power method on a rank-one matrix reaches the column direction: `train` returns the Fisher direction -/
@@ -1405,40 +1395,23 @@ example : ∃ t : ℚ, absv t * (312500000 / 125000001) = 1 ∧
   · decide +kernel
   · decide +kernel
 
-/-! ### `solve_spd_correct`: false in full strength, proved along runs that skip no non-zero column -/
-
-/-- **C15.spd_not_goodRun_witness** — the conjecture "for a symmetric positive definite matrix every
-elimination run is a `GoodRun`" is FALSE of this `echelon`: `A = [[1,2,0],[2,5,0],[0,0,1]]` is symmetric with
-`xᵀAx = (x+2y)² + y² + z²` (positive definite), yet the run on `A + ε₀I` is not a `GoodRun` — after the row
-swap that the signed-max pivot search makes in column 0, column 1 holds `(negative, 0)`, its maximum is the
-exact zero of the uncoupled third row and the column is skipped. So `solve_spd_correct` cannot hold in full
-strength for this code (see `solve_fails_on_spd_witness`: `solve` then reports failure); it holds for runs
-that pick the diagonal entry (`goodRun_of_diagRun`) -/
-theorem spd_not_goodRun_witness :
-    (∀ x y z : ℚ, dotl [x, y, z] (dotv [[1, 2, 0], [2, 5, 0], [0, 0, 1]] [x, y, z])
-        = (x + 2 * y) ^ 2 + y ^ 2 + z ^ 2) ∧
-    ¬ GoodRun cQ.fmin 3 3 3 0 0 (fillZero cQ.eps0 [[1, 2, 0], [2, 5, 0], [0, 0, 1]], [[1], [1], [1]]) := by
-  constructor
-  · intro x y z
-    simp only [dotv, List.map_cons, List.map_nil, dotl_cons, dotl_nil_left]
-    ring
-  · decide +kernel
+/-! ### `solve_spd_correct`: with pivoting by magnitude every run is a `GoodRun`; exact correctness when the run ends on the identity -/
 
 /-- a run of the `echelon` loop in which every pivot search returns the current row `h` itself (no row swap:
 "the first candidate is the diagonal entry") and that entry is non-zero — what elimination on an SPD matrix
 looks like when no below-diagonal entry exceeds the diagonal one -/
-def DiagRun (fmin : K) (m n : Nat) : Nat → Nat → Nat → Mat K × Mat K → Prop
+def DiagRun (m n : Nat) : Nat → Nat → Nat → Mat K × Mat K → Prop
   | 0, _, _, _ => True
   | fuel + 1, h, k, (left, right) =>
     if h < m ∧ k < n then
-      (findMax fmin left k h m).1 = h ∧ get left h k ≠ 0 ∧
-        DiagRun fmin m n fuel (h + 1) (k + 1) (clearBelow h k left right)
+      (findMax left k h m).1 = h ∧ get left h k ≠ 0 ∧
+        DiagRun m n fuel (h + 1) (k + 1) (clearBelow h k left right)
     else True
 
 /-- **C15.goodRun_of_diagRun** — a pivoting-free run with non-zero diagonal pivots is a `GoodRun`, so
 `solve_sound_partial` applies to it without further hypotheses -/
-theorem goodRun_of_diagRun (fmin : K) (m n fuel h k : Nat) (st : Mat K × Mat K)
-    (hd : DiagRun fmin m n fuel h k st) : GoodRun fmin m n fuel h k st := by
+theorem goodRun_of_diagRun (m n fuel h k : Nat) (st : Mat K × Mat K)
+    (hd : DiagRun m n fuel h k st) : GoodRun m n fuel h k st := by
   induction fuel generalizing h k st with
   | zero => trivial
   | succ fuel ih =>
@@ -1449,7 +1422,7 @@ theorem goodRun_of_diagRun (fmin : K) (m n fuel h k : Nat) (st : Mat K × Mat K)
     · rename_i hc
       rw [if_pos hc] at hd
       obtain ⟨hi, hp, hrest⟩ := hd
-      have hnz : ¬ isZero (get left (findMax fmin left k h m).1 k) = true := by
+      have hnz : ¬ isZero (get left (findMax left k h m).1 k) = true := by
         rw [hi, isZero_iff]; exact hp
       rw [if_neg hnz, hi]
       refine ⟨le_refl _, hc.1, ?_⟩
@@ -1457,16 +1430,16 @@ theorem goodRun_of_diagRun (fmin : K) (m n fuel h k : Nat) (st : Mat K × Mat K)
       exact ih _ _ _ hrest
     · trivial
 
-instance diagRunDec (fmin : K) (m n : Nat) : ∀ fuel h k st, Decidable (DiagRun fmin m n fuel h k st)
+instance diagRunDec (m n : Nat) : ∀ fuel h k (st : Mat K × Mat K), Decidable (DiagRun m n fuel h k st)
   | 0, _, _, _ => isTrue trivial
   | fuel + 1, h, k, (left, right) => by
     unfold DiagRun
-    haveI := diagRunDec fmin m n fuel
+    haveI := diagRunDec m n fuel
     infer_instance
 
 /-- non-vacuity: the SPD matrix `[[5,2,0],[2,1,0],[0,0,1]]` (the witness with rows/columns 0 and 1 exchanged)
 is eliminated without a swap -/
-example : DiagRun cQ.fmin 3 3 3 0 0 (fillZero cQ.eps0 [[5, 2, 0], [2, 1, 0], [0, 0, 1]], [[1], [1], [1]]) := by
+example : DiagRun 3 3 3 0 0 (fillZero cQ.eps0 [[5, 2, 0], [2, 1, 0], [0, 0, 1]], [[1], [1], [1]]) := by
   decide +kernel
 
 /-! ### the converse direction: the row operations lose no equation either -/
@@ -1635,11 +1608,11 @@ theorem swapRows_complete {X : Mat K} {m : Nat} (i j : Nat) {st : Mat K × Mat K
 
 /-- **C15.echelonLoop_complete** — along a `GoodRun` the `echelon` loop loses no equation either: every
 solution of the eliminated system solves the original one (the converse of `echelonLoop_sound`) -/
-theorem echelonLoop_complete {X : Mat K} (fmin : K) {nn mm : Nat} (m n : Nat) (fuel h k : Nat)
+theorem echelonLoop_complete {X : Mat K} {nn mm : Nat} (m n : Nat) (fuel h k : Nat)
     (st : Mat K × Mat K) (hr : Rect st nn mm) (hm : st.1.length = m) (hinv : EchInv h k st.1)
-    (hg : GoodRun fmin m n fuel h k st) :
-    Rect (echelonLoop fmin m n fuel h k st) nn mm ∧
-      (Sat X mm (echelonLoop fmin m n fuel h k st) → Sat X mm st) := by
+    (hg : GoodRun m n fuel h k st) :
+    Rect (echelonLoop m n fuel h k st) nn mm ∧
+      (Sat X mm (echelonLoop m n fuel h k st) → Sat X mm st) := by
   induction fuel generalizing h k st with
   | zero => exact ⟨hr, id⟩
   | succ fuel ih =>
@@ -1667,13 +1640,13 @@ theorem echelonLoop_complete {X : Mat K} (fmin : K) {nn mm : Nat} (m n : Nat) (f
         rw [if_neg hz] at hg
         obtain ⟨hhi, him, hg'⟩ := hg
         have hhm : h < left.length := by omega
-        have hil : (findMax fmin left k h m).1 < left.length := by omega
-        have hsw : Rect (if h ≠ (findMax fmin left k h m).1 then (swapRows left h (findMax fmin left k h m).1, swapRows right h (findMax fmin left k h m).1) else (left, right)) nn mm
-            ∧ (Sat X mm (if h ≠ (findMax fmin left k h m).1 then (swapRows left h (findMax fmin left k h m).1, swapRows right h (findMax fmin left k h m).1) else (left, right)) → Sat X mm (left, right))
-            ∧ EchInv h k (if h ≠ (findMax fmin left k h m).1 then (swapRows left h (findMax fmin left k h m).1, swapRows right h (findMax fmin left k h m).1) else (left, right)).1
-            ∧ (if h ≠ (findMax fmin left k h m).1 then (swapRows left h (findMax fmin left k h m).1, swapRows right h (findMax fmin left k h m).1) else (left, right)).1.length = m
-            ∧ get (if h ≠ (findMax fmin left k h m).1 then (swapRows left h (findMax fmin left k h m).1, swapRows right h (findMax fmin left k h m).1) else (left, right)).1 h k
-                = get left (findMax fmin left k h m).1 k := by
+        have hil : (findMax left k h m).1 < left.length := by omega
+        have hsw : Rect (if h ≠ (findMax left k h m).1 then (swapRows left h (findMax left k h m).1, swapRows right h (findMax left k h m).1) else (left, right)) nn mm
+            ∧ (Sat X mm (if h ≠ (findMax left k h m).1 then (swapRows left h (findMax left k h m).1, swapRows right h (findMax left k h m).1) else (left, right)) → Sat X mm (left, right))
+            ∧ EchInv h k (if h ≠ (findMax left k h m).1 then (swapRows left h (findMax left k h m).1, swapRows right h (findMax left k h m).1) else (left, right)).1
+            ∧ (if h ≠ (findMax left k h m).1 then (swapRows left h (findMax left k h m).1, swapRows right h (findMax left k h m).1) else (left, right)).1.length = m
+            ∧ get (if h ≠ (findMax left k h m).1 then (swapRows left h (findMax left k h m).1, swapRows right h (findMax left k h m).1) else (left, right)).1 h k
+                = get left (findMax left k h m).1 k := by
           split
           · refine ⟨rect_swapRows (st := (left, right)) _ _ hr hhm hil,
               swapRows_complete (st := (left, right)) _ _ hr.1 hhm hil,
@@ -1683,11 +1656,11 @@ theorem echelonLoop_complete {X : Mat K} (fmin : K) {nn mm : Nat} (m n : Nat) (f
             rw [getD_swapRows _ _ _ _ hhm hil]
             simp [hne]
           · rename_i hne
-            have : h = (findMax fmin left k h m).1 := by
+            have : h = (findMax left k h m).1 := by
               by_contra hc; exact hne hc
             exact ⟨hr, id, hinv, hm, by simp only; rw [← this]⟩
         obtain ⟨hr2, hback, hinv2, hm2, hpiv⟩ := hsw
-        have hp : ((if h ≠ (findMax fmin left k h m).1 then (swapRows left h (findMax fmin left k h m).1, swapRows right h (findMax fmin left k h m).1) else (left, right)).1.getD h []).getD k 0 ≠ 0 := by
+        have hp : ((if h ≠ (findMax left k h m).1 then (swapRows left h (findMax left k h m).1, swapRows right h (findMax left k h m).1) else (left, right)).1.getD h []).getD k 0 ≠ 0 := by
           intro h0
           apply hz
           rw [isZero_iff, ← hpiv]
@@ -1721,30 +1694,30 @@ theorem rect_reduce {nn mm : Nat} {st : Mat K × Mat K} (hr : Rect st nn mm) : R
 
 /-- the final state of `solve_inner` (before the `left_solved` test) -/
 def finalState (c : Consts K) (n : Nat) (A B : Mat K) (eps : K) : Mat K × Mat K :=
-  backfill (reduce (echelon c.fmin n (fillZero eps A, B)))
+  backfill (reduce (echelon n (fillZero eps A, B)))
 
 /-- **C15.solve_equiv** — along a `GoodRun`, the system `solve_inner` ends on has EXACTLY the solutions of
 the regularised system `(A + eps·I) X = B` (both directions: `solve_sound_partial` and its converse) -/
 theorem solve_equiv (c : Consts K) (n nn mm : Nat) (A B : Mat K) (eps : K) (X : Mat K)
     (hr : Rect (fillZero eps A, B) nn mm)
-    (hg : GoodRun c.fmin A.length n n 0 0 (fillZero eps A, B)) :
+    (hg : GoodRun A.length n n 0 0 (fillZero eps A, B)) :
     Sat X mm (fillZero eps A, B) ↔ Sat X mm (finalState c n A B eps) := by
   have hlen : (fillZero eps A).length = A.length := by simp [fillZero]
   have hinv0 : EchInv 0 0 (fillZero eps A, B).1 := fun i _ j hj => absurd hj (Nat.not_lt_zero j)
-  have hc := echelonLoop_complete (X := X) c.fmin A.length n n 0 0 (fillZero eps A, B) hr hlen hinv0 hg
-  have hre : Rect (echelon c.fmin n (fillZero eps A, B)) nn mm := by
+  have hc := echelonLoop_complete (X := X) A.length n n 0 0 (fillZero eps A, B) hr hlen hinv0 hg
+  have hre : Rect (echelon n (fillZero eps A, B)) nn mm := by
     unfold echelon; simp only [hlen]; exact hc.1
   constructor
   · intro hX
-    have he := echelonLoop_sound (X := X) c.fmin A.length n n 0 0 (fillZero eps A, B) hr hlen hinv0 hg hX
-    have he' : Sat X mm (echelon c.fmin n (fillZero eps A, B)) := by
+    have he := echelonLoop_sound (X := X) A.length n n 0 0 (fillZero eps A, B) hr hlen hinv0 hg hX
+    have he' : Sat X mm (echelon n (fillZero eps A, B)) := by
       unfold echelon; simp only [hlen]; exact he.2
     exact (backfill_sound (rect_reduce hre) (reduce_sound hre.1 he')).2
   · intro hF
     have h1 := backfill_complete (rect_reduce hre) hF
     have h2 := reduce_complete hre.1 h1
     apply hc.2
-    have : echelon c.fmin n (fillZero eps A, B) = echelonLoop c.fmin A.length n n 0 0 (fillZero eps A, B) := by
+    have : echelon n (fillZero eps A, B) = echelonLoop A.length n n 0 0 (fillZero eps A, B) := by
       unfold echelon; simp only [hlen]
     rw [← this]; exact h2
 
@@ -1772,11 +1745,11 @@ theorem identityK_getD (n i : Nat) (hi : i < n) (j : Nat) :
 /-- **C15.solve_exact_of_identity** — full-strength correctness of `solve_inner`, with its two run
 hypotheses visible: if the elimination is a `GoodRun` and ends on the exact identity (in exact arithmetic
 both hold for every non-singular system whose pivots are found without meeting a zero column maximum, e.g.
-`DiagRun`s; they can FAIL for SPD input, `spd_not_goodRun_witness`), then the returned `X'` solves the
+`DiagRun`s; the first always holds since the repair of the pivot rule, `goodRun_always`), then the returned `X'` solves the
 regularised system exactly, `(A + eps·I) X' = B`, and it is the only solution (`solve_unique`). -/
 theorem solve_exact_of_identity (c : Consts K) (n mm : Nat) (A B : Mat K) (eps : K) (X' : Mat K)
     (hA : A.length = n) (hr : Rect (fillZero eps A, B) n mm)
-    (hg : GoodRun c.fmin A.length n n 0 0 (fillZero eps A, B))
+    (hg : GoodRun A.length n n 0 0 (fillZero eps A, B))
     (hid : (finalState c n A B eps).1 = identityK n)
     (hsol : solveInner c n A B eps = some X') :
     Sat X' mm (fillZero eps A, B) ∧
@@ -1790,9 +1763,9 @@ theorem solve_exact_of_identity (c : Consts K) (n mm : Nat) (A B : Mat K) (eps :
     · exact absurd hsol (by simp)
   have hlen : (fillZero eps A).length = A.length := by simp [fillZero]
   have hinv0 : EchInv 0 0 (fillZero eps A, B).1 := fun i _ j hj => absurd hj (Nat.not_lt_zero j)
-  have hre : Rect (echelon c.fmin n (fillZero eps A, B)) n mm := by
+  have hre : Rect (echelon n (fillZero eps A, B)) n mm := by
     unfold echelon; simp only [hlen]
-    exact (echelonLoop_complete (X := X') c.fmin A.length n n 0 0 (fillZero eps A, B) hr hlen hinv0 hg).1
+    exact (echelonLoop_complete (X := X') A.length n n 0 0 (fillZero eps A, B) hr hlen hinv0 hg).1
   have hrf : Rect (finalState c n A B eps) n mm := rect_backfill (rect_reduce hre)
   have hLn : (finalState c n A B eps).1.length = n := by rw [hid]; simp [identityK]
   have hXn : X'.length = n := by rw [← hX', ← hrf.1, hLn]
@@ -1816,10 +1789,10 @@ theorem solve_exact_of_identity (c : Consts K) (n mm : Nat) (A B : Mat K) (eps :
 /-- with `goodRun_of_diagRun`: the pivoting-free sub-case -/
 theorem solve_exact_of_diagRun (c : Consts K) (n mm : Nat) (A B : Mat K) (eps : K) (X' : Mat K)
     (hA : A.length = n) (hr : Rect (fillZero eps A, B) n mm)
-    (hd : DiagRun c.fmin A.length n n 0 0 (fillZero eps A, B))
+    (hd : DiagRun A.length n n 0 0 (fillZero eps A, B))
     (hid : (finalState c n A B eps).1 = identityK n)
     (hsol : solveInner c n A B eps = some X') : Sat X' mm (fillZero eps A, B) :=
-  (solve_exact_of_identity c n mm A B eps X' hA hr (goodRun_of_diagRun _ _ _ _ _ _ _ hd) hid hsol).1
+  (solve_exact_of_identity c n mm A B eps X' hA hr (goodRun_of_diagRun _ _ _ _ _ _ hd) hid hsol).1
 
 /-- non-vacuity: the SPD system `[[5,2,0],[2,1,0],[0,0,1]] X = (1,1,1)` with the code's first regulariser:
 all hypotheses hold (a `DiagRun`, ending on the exact identity), so the returned `X'` is the exact solution
@@ -1834,5 +1807,151 @@ example : ∃ X' : Mat ℚ, solveInner cQ 3 [[5, 2, 0], [2, 1, 0], [0, 0, 1]] [[
   · decide +kernel
   · decide +kernel
   · decide +kernel
+
+/-! ## after the repair of the pivot rule (pivoting by magnitude) -/
+
+/-- the fold of the pivot search over an index list: the result dominates the start value and every
+listed candidate, and is either the start or one of the candidates -/
+theorem findMax_fold (left : Mat K) (k : Nat) (l : List Nat) (i0 : Nat) (v0 : K) :
+    let r := l.foldl (fun mx i => let v := absv (get left i k); if mx.2 ≤ v then (i, v) else mx) (i0, v0)
+    v0 ≤ r.2 ∧ (∀ j ∈ l, absv (get left j k) ≤ r.2) ∧
+      (r = (i0, v0) ∨ (r.1 ∈ l ∧ r.2 = absv (get left r.1 k))) := by
+  induction l generalizing i0 v0 with
+  | nil => simp
+  | cons a as ih =>
+    simp only [List.foldl_cons]
+    by_cases hle : v0 ≤ absv (get left a k)
+    · simp only [hle, if_true]
+      obtain ⟨h1, h2, h3⟩ := ih a (absv (get left a k))
+      refine ⟨le_trans hle h1, ?_, ?_⟩
+      · intro j hj
+        rcases List.mem_cons.mp hj with rfl | hj
+        · exact h1
+        · exact h2 j hj
+      · right
+        rcases h3 with h3 | ⟨h3, h4⟩
+        · rw [h3]; exact ⟨by simp, rfl⟩
+        · exact ⟨List.mem_cons_of_mem _ h3, h4⟩
+    · simp only [hle, if_false]
+      obtain ⟨h1, h2, h3⟩ := ih i0 v0
+      refine ⟨h1, ?_, ?_⟩
+      · intro j hj
+        rcases List.mem_cons.mp hj with rfl | hj
+        · exact le_trans (le_of_lt (not_le.mp hle)) h1
+        · exact h2 j hj
+      · rcases h3 with h3 | ⟨h3, h4⟩
+        · left; exact h3
+        · right; exact ⟨List.mem_cons_of_mem _ h3, h4⟩
+
+/-- **C15.pivot_maximal_abs** — the pivot search returns a row of the segment `h..m` whose entry in column
+`k` has the largest magnitude of the segment (textbook partial pivoting) -/
+theorem pivot_maximal_abs (left : Mat K) (k h m : Nat) (hm : h < m) :
+    h ≤ (findMax left k h m).1 ∧ (findMax left k h m).1 < m ∧
+    (findMax left k h m).2 = absv (get left (findMax left k h m).1 k) ∧
+    ∀ r, h ≤ r → r < m → absv (get left r k) ≤ absv (get left (findMax left k h m).1 k) := by
+  have hf := findMax_fold left k (List.range' h (m - h)) h 0
+  simp only at hf
+  obtain ⟨h1, h2, h3⟩ := hf
+  have hmem : ∀ r, r ∈ List.range' h (m - h) ↔ h ≤ r ∧ r < m := by
+    intro r; rw [List.mem_range']; constructor
+    · rintro ⟨i, hi, rfl⟩; omega
+    · rintro ⟨a, b⟩; exact ⟨r - h, by omega, by omega⟩
+  have hhm : h ∈ List.range' h (m - h) := (hmem h).mpr ⟨le_refl _, hm⟩
+  unfold findMax
+  rcases h3 with h3 | ⟨h3, h4⟩
+  · -- the start value survived: every candidate has magnitude 0, and the index is h
+    rw [h3]
+    have hz : ∀ r, h ≤ r → r < m → absv (get left r k) = 0 := by
+      intro r hr hr'
+      have := h2 r ((hmem r).mpr ⟨hr, hr'⟩)
+      rw [h3] at this
+      exact le_antisymm this (absv_nonneg _)
+    refine ⟨le_refl _, hm, ?_, ?_⟩
+    · simp only; rw [hz h (le_refl _) hm]
+    · intro r hr hr'; simp only; rw [hz r hr hr', hz h (le_refl _) hm]
+  · obtain ⟨a, b⟩ := (hmem _).mp h3
+    refine ⟨a, b, h4, ?_⟩
+    intro r hr hr'
+    rw [← h4]; exact h2 r ((hmem r).mpr ⟨hr, hr'⟩)
+
+/-- **C15.multiplier_le_one** — with the pivot of largest magnitude, every elimination multiplier
+`a_rk / pivot` of the column segment has magnitude at most 1: the classical growth bound of partial
+pivoting (the former signed rule violated it: `-10⁶ / (-ε/2) = 2·10¹⁴`, finding C15-silently-wrong-tiny-pivot) -/
+theorem multiplier_le_one (left : Mat K) (k h m : Nat) (hm : h < m)
+    (hp : get left (findMax left k h m).1 k ≠ 0) (r : Nat) (hr : h ≤ r) (hr' : r < m) :
+    absv (get left r k / get left (findMax left k h m).1 k) ≤ 1 := by
+  obtain ⟨_, _, _, hmax⟩ := pivot_maximal_abs left k h m hm
+  have hpos : 0 < absv (get left (findMax left k h m).1 k) :=
+    lt_of_le_of_ne (absv_nonneg _) (fun h0 => hp (absv_eq_zero.mp h0.symm))
+  rw [div_eq_mul_inv, absv_mul]
+  have hinv : absv (get left (findMax left k h m).1 k)⁻¹ = (absv (get left (findMax left k h m).1 k))⁻¹ := by
+    have h1 : absv (get left (findMax left k h m).1 k)⁻¹ * absv (get left (findMax left k h m).1 k) = 1 := by
+      rw [← absv_mul, inv_mul_cancel₀ hp]; simp [absv]
+    exact eq_inv_of_mul_eq_one_left h1
+  rw [hinv, ← div_eq_mul_inv, div_le_one hpos]
+  exact hmax r hr hr'
+
+/-- **C15.goodRun_always** — with pivoting by magnitude EVERY run of the `echelon` loop is a `GoodRun`: a
+column is skipped only when its whole segment is zero (the maximal magnitude is 0), and the pivot row is
+always found inside `h..m`. So `echelonLoop_sound`, `solve_sound_partial`, `solve_equiv` hold for every input. -/
+theorem goodRun_always (m n fuel h k : Nat) (st : Mat K × Mat K) : GoodRun m n fuel h k st := by
+  induction fuel generalizing h k st with
+  | zero => trivial
+  | succ fuel ih =>
+    obtain ⟨left, right⟩ := st
+    unfold GoodRun
+    split
+    · rename_i hc
+      obtain ⟨hlo, hhi, _, hmax⟩ := pivot_maximal_abs left k h m hc.1
+      split
+      · rename_i hz
+        refine ⟨?_, ih _ _ _⟩
+        intro r hr hr'
+        have h0 : get left (findMax left k h m).1 k = 0 := (isZero_iff _).mp hz
+        have := hmax r hr hr'
+        rw [h0] at this
+        have h00 : absv (0 : K) = 0 := by simp [absv]
+        rw [h00] at this
+        exact absv_eq_zero.mp (le_antisymm this (absv_nonneg _))
+      · exact ⟨hlo, hhi, ih _ _ _⟩
+    · trivial
+
+/-- **C15.solve_sound** — (the stretch goal, now in full strength) whenever `solve_inner` returns `X'`,
+every exact solution `X` of the regularised system `(A + eps·I) X = B` solves the final system `L X = X'`
+whose left side `left_solved` accepted -/
+theorem solve_sound (c : Consts K) (n nn mm : Nat) (A B : Mat K) (eps : K) (X X' : Mat K)
+    (hr : Rect (fillZero eps A, B) nn mm) (hX : Sat X mm (fillZero eps A, B))
+    (hsol : solveInner c n A B eps = some X') :
+    ∃ L : Mat K, leftSolved c.tol n L = true ∧ Sat X mm (L, X') :=
+  solve_sound_partial c n nn mm A B eps X X' hr (goodRun_always _ _ _ _ _ _) hX hsol
+
+/-- **C15.solve_equiv_all** — for every rectangular system, the system `solve_inner` ends on has exactly the
+solutions of the regularised one -/
+theorem solve_equiv_all (c : Consts K) (n nn mm : Nat) (A B : Mat K) (eps : K) (X : Mat K)
+    (hr : Rect (fillZero eps A, B) nn mm) :
+    Sat X mm (fillZero eps A, B) ↔ Sat X mm (finalState c n A B eps) :=
+  solve_equiv c n nn mm A B eps X hr (goodRun_always _ _ _ _ _ _)
+
+/-- **C15.solve_exact** — if `solve_inner` ends on the exact identity, the returned `X'` is the unique
+exact solution of `(A + eps·I) X = B` (no hypothesis on the run any more) -/
+theorem solve_exact (c : Consts K) (n mm : Nat) (A B : Mat K) (eps : K) (X' : Mat K)
+    (hA : A.length = n) (hr : Rect (fillZero eps A, B) n mm)
+    (hid : (finalState c n A B eps).1 = identityK n)
+    (hsol : solveInner c n A B eps = some X') :
+    Sat X' mm (fillZero eps A, B) ∧
+      ∀ X : Mat K, X.length = n → Sat X mm (fillZero eps A, B) →
+        ∀ i c', i < n → c' < mm → get X i c' = get X' i c' :=
+  solve_exact_of_identity c n mm A B eps X' hA hr (goodRun_always _ _ _ _ _ _) hid hsol
+
+/-- non-vacuity: the former failure witness `[[1,2,0],[2,5,0],[0,0,1]] X = (1,1,1)` ends on the identity -/
+example : (finalState cQ 3 [[1, 2, 0], [2, 5, 0], [0, 0, 1]] [[1], [1], [1]] cQ.eps0).1 = identityK (K := ℚ) 3 := by
+  decide +kernel
+/-- non-vacuity of `multiplier_le_one` / `pivot_maximal_abs`: column `(1, -3, 2)` from row 0: row 1 is chosen -/
+example : findMax ([[1], [-3], [2]] : Mat ℚ) 0 0 3 = (1, 3) := by decide +kernel
+/-- history: the former rule's choice in the tiny-pivot witness, `-ε/2` over `-10⁶`, gives a multiplier `2·10¹⁴` -/
+example : (-(1/200000000) : ℚ) > -1000000 ∧ absv ((-1000000 : ℚ) / (-(1/200000000))) = 200000000000000 := by
+  constructor
+  · norm_num
+  · norm_num [absv]
 
 end Sage.C15
